@@ -26,6 +26,8 @@ type C16Case struct {
 	// single kill: after the yank, move back Again runes, type a character and
 	// yank once more: the text inserted must still be what the kill removed
 	Again int `json:"again,omitempty"`
+	// display-only variables (the property is stated for any configuration)
+	Vars [][2]string `json:"vars,omitempty"`
 }
 
 type C16Kil struct {
@@ -46,6 +48,7 @@ func genC16(t *rapid.T) *C16Case {
 	c.Text = strings.Join(rapid.SliceOfN(rapid.SampledFrom(c16Pieces), 0, 8).Draw(t, "pieces"), rapid.SampledFrom([]string{" ", "", " "}).Draw(t, "join"))
 	n := len([]rune(c.Text))
 	c.Back = rapid.IntRange(0, n).Draw(t, "back")
+	c.Vars = genDisplayVars(t)
 
 	if c.Mode == "vi" {
 		// vi: delete-character with a count, then put-before
@@ -159,7 +162,7 @@ func insertedTexts(x, y []rune) []string {
 func runC16(h *Harness, child *rig.Child, c *C16Case) (f *Failure, nontrivial bool) {
 	e := h.env()
 	names := append(append([]string{"yank", "set-mark", "exchange-point-and-mark", "forward-char", "backward-char", "vi-delete", "vi-put-before"}, c16Kills...), c16Motions...)
-	spec := &proto.Spec{Calls: 1, Inputrc: renderVars(c.Mode, [][2]string{{"convert-meta", "off"}, {"input-meta", "on"}, {"output-meta", "on"}}),
+	spec := &proto.Spec{Calls: 1, Inputrc: renderVars(c.Mode, append([][2]string{{"convert-meta", "off"}, {"input-meta", "on"}, {"output-meta", "on"}}, c.Vars...)),
 		LogCmds: true, Multiline: "backslash", Prompt: &proto.PromptSpec{Primary: "> "}, Binds: e.bindNames(names, mainKeymaps...)}
 
 	d := openDrive(h, child, spec, rig.SessionOpts{Cols: 120, Rows: 40})
